@@ -602,11 +602,24 @@ bool qtreetbl_getnext(qtreetbl_t *tbl, qtreetbl_obj_t *obj, const bool newmem) {
             cursor = cursor->left;
             continue;
         } else if (cursor->tid != tid) {
+            void *copyname = NULL, *copydata = NULL;
+            if (newmem) {
+                copyname = qmemdup(cursor->name, cursor->namesize);
+                copydata = qmemdup(cursor->data, cursor->datasize);
+                if (copyname == NULL || (copydata == NULL && cursor->data != NULL
+                                         && cursor->datasize > 0)) {
+                    // not visited yet, the same call can be retried.
+                    free(copyname);
+                    free(copydata);
+                    errno = ENOMEM;
+                    return false;
+                }
+            }
             cursor->tid = tid;
             *obj = *cursor;
             if (newmem) {
-                obj->name = qmemdup(cursor->name, cursor->namesize);
-                obj->data = qmemdup(cursor->data, cursor->datasize);
+                obj->name = copyname;
+                obj->data = copydata;
             }
             obj->next = cursor;  // store original address in tree for next iteration
             return true;
@@ -761,9 +774,17 @@ qtreetbl_obj_t qtreetbl_find_nearest(qtreetbl_t *tbl, const void *name,
             retobj.name = qmemdup(obj->name, obj->namesize);
             retobj.data = qmemdup(obj->data, obj->datasize);
         }
-        // set travel info to be used for iteration in getnext()
-        retobj.tid = tbl->tid;
-        retobj.next = obj;
+        if (newmem && (retobj.name == NULL || (retobj.data == NULL
+                       && obj->data != NULL && obj->datasize > 0))) {
+            free(retobj.name);
+            free(retobj.data);
+            memset((void*) &retobj, 0, sizeof(retobj));
+            errno = ENOMEM;
+        } else {
+            // set travel info to be used for iteration in getnext()
+            retobj.tid = tbl->tid;
+            retobj.next = obj;
+        }
     } else {
         errno = ENOENT;
     }
